@@ -188,6 +188,10 @@ fn wide_bits_cases(deadline: &Deadline) -> Stats {
             let e = || bin(BinOp::Sub, Expr::Lit(0, Radix::Dec), Expr::Lit(v.wrapping_neg(), Radix::Dec));
             let e = if *v >= 0 { lit(*v) } else if *v == i64::MIN { bin(BinOp::Shl, lit(1), lit(63)) } else { e() };
             body.push(Stmt::Row(vec![Entry::Bits(k as u8, e.clone()), Entry::Lit(i as i64, Radix::Dec), Entry::X]));
+            if i % 4 == 0 {
+                // bits(0, e) stands for no column at all, wherever it is written
+                body.push(Stmt::Row(vec![Entry::Bits(0, e.clone()), Entry::Bits(k as u8, e.clone()), Entry::Bits(0, lit(1)), Entry::Lit(i as i64 + 1, Radix::Dec), Entry::X]));
+            }
             if k >= 2 {
                 let j = k / 2;
                 body.push(Stmt::Row(vec![Entry::Bits((k - j) as u8, bin(BinOp::Shr, e.clone(), lit(j as i64))), Entry::Bits(j as u8, e), Entry::Lit(i as i64, Radix::Dec), Entry::X]));
@@ -196,7 +200,7 @@ fn wide_bits_cases(deadline: &Deadline) -> Stats {
         let prog = Program { header, body };
         let text = text(&prog);
         let script = vec![Step::Ans(vec![("Q".into(), V::Num(1))])];
-        let r = ref_run_fuel(&prog, &sigs, &script, 100_000, 100);
+        let r = ref_run_fuel(&prog, &sigs, &script, 100_000, 120);
         assert!(r.end == RefEnd::Done, "wide bits case {k} does not finish in the reference: {:?}", r.end);
         st.evals += 1;
         st.nontrivial += 1;
